@@ -8,6 +8,11 @@ import traceback
 _CTX = {}
 
 
+def _skip():
+    from .arraymodel import Skip
+    return Skip
+
+
 def _edge_job(batch):
     b = _CTX['binding']
     mg = _CTX['mg']
@@ -17,6 +22,8 @@ def _edge_job(batch):
         m = _CTX['macros'][idx]
         try:
             out.append(_run_edge(b, mg, m, idx, cfgi, props))
+        except _skip() as e:
+            out.append({'idx': idx, 'skipped': str(e), 'mism': {}})
         except Exception:
             out.append({'idx': idx, 'error': traceback.format_exc()})
     return out
@@ -96,6 +103,8 @@ def _path_job(batch):
         path = _CTX['paths'][pi]
         try:
             out.append(_run_path(b, mg, path, pi, cfgi, props))
+        except _skip() as e:
+            out.append({'idx': pi, 'skipped': str(e), 'mism': {}, 'labels': []})
         except Exception:
             out.append({'idx': pi, 'error': traceback.format_exc()})
     return out
